@@ -489,8 +489,9 @@ func (w *replayerWorld) checkRetention(after string) {
 	}
 }
 
-func runReplayerWorld(rc *RunCtx) *Outcome {
+func runReplayerWorld(rc *RunCtx) (out *Outcome) {
 	o := newOutcome()
+	out = o // also when a panic inside go-sse is recovered below
 	if rc.KeepLog {
 		o.Log = []string{}
 	}
